@@ -50,7 +50,30 @@ def blitSeq (width : Nat) : Nat → List (List Nat) → List UInt32 → List Str
       blitSeq width (pi + 1) rest r.1.buf ((match r.2 with | .ok _ => "ok" | .err _ => "E" | .panic _ => "P") :: acc)
   | _, _ :: _, _, _ => none
 
+/-- several compressed paints carrying the same data: (statuses, final buffer) -/
+def blitDSeq (width bpp : Nat) (d : Array UInt8) : List (List Nat) → List UInt32 → List String → Option (List String × List UInt32)
+  | [], buf, acc => some (acc.reverse, buf)
+  | [left, top, right, bottom, bw, bh] :: rest, buf, acc =>
+    match Codec.decompress ⟨bw, bh, bpp, true, d⟩ with
+    | .ok bytes =>
+      let r := blit buf width ⟨left, top, right, bottom, bw⟩ (cellsOfBytes bytes)
+      blitDSeq width bpp d rest r.1.buf ((match r.2 with | .ok _ => "ok" | .err _ => "E" | .panic _ => "P") :: acc)
+    | .err _ => blitDSeq width bpp d rest buf ("E" :: acc)
+    | .panic _ => blitDSeq width bpp d rest buf ("P" :: acc)
+  | _ :: _, _, _ => none
+
 def c19 (toks : List String) : String :=
+  if toks.head? = some "blitdseq" then
+    match toks with
+    | _ :: w :: bl :: bp :: hx :: items =>
+      match w.toNat?, bl.toNat?, bp.toNat?, ofHex hx, items.mapM (fun i => (i.splitOn ".").mapM String.toNat?) with
+      | some width, some buflen, some bpp, some d, some paints =>
+        match blitDSeq width bpp d.toArray paints ((List.range buflen).map bufCell) [] with
+        | some (res, buf) => ",".intercalate res ++ " " ++ showCellsHex buf ++ "\t-"
+        | none => "bad-case"
+      | _, _, _, _, _ => "bad-case"
+    | _ => "bad-case"
+  else
   if toks.head? = some "blitseq" then
     match toks with
     | _ :: w :: bl :: items =>
